@@ -1491,6 +1491,9 @@ class Interp:
             prov = self.provided_method(info.trait, method)
             if prov:
                 return prov, self.bind_provided(prov, self_ty, targs, gargs, ctx)
+            # serde: the provided Serializer::is_human_readable / Deserializer::is_human_readable return true
+            if tname in ('Serializer', 'Deserializer') and method == 'is_human_readable':
+                return lambda it, ctx_, a, s: iter([(s, z3.BoolVal(True))])
             # std::cmp::PartialEq::ne is !eq unless overridden
             if tname == 'PartialEq' and method == 'ne' and 'eq' in info.methods:
                 name = self.pick_dup(info, 'eq', b, head, targs)
